@@ -94,13 +94,13 @@ def _replay_assemble(kind):
 
 # ---------------------------------------------------------------- forms grammar
 
-def _forms(dim, lam, mu, A, coef_fun):
+def _forms(dim, lam, mu, A, coef_fun, scheme="mass"):
     """name -> (dof_n, bilinear form, reference operator (groupElem, field) -> (Ne, m, m))"""
     from EasyFEA.FEM import Sym_Grad, Trace, Transpose
     from EasyFEA.FEM import Operators
     from EasyFEA.FEM._linalg import FeArray
     from EasyFEA.FEM._utils import MatrixType
-    mt = MatrixType.mass
+    mt = MatrixType[scheme]
     Id = np.eye(dim)
     # Kelvin-Mandel isotropic C for the reference operator
     n = 3 if dim == 2 else 6
@@ -161,18 +161,20 @@ def _geometry(et):
     return patches.real_mesh(et, coords, connect)
 
 
-def ob_form(et, name):
+def ob_form(et, name, scheme="mass"):
+    """`scheme`: the integration scheme the field is built on (the default mass scheme, or the stiffness scheme `rigi` of the built-in stiffness operators): the form is
+    integrated with that scheme and compared with the built-in operator at the same scheme."""
     from EasyFEA.FEM import Field, BiLinearForm
     from EasyFEA.FEM._utils import MatrixType
     mesh = _geometry(et)
     g = mesh.groupElem
     dim = g.dim
     A = np.array([[2.0, 0.3, 0.1], [0.3, 1.5, -0.2], [0.1, -0.2, 1.1]])[:dim, :dim]
-    forms = _forms(dim, 1.2, 0.8, A, lambda x, y, z: 1.0 + 0.5 * x + 0.25 * y * y)
+    forms = _forms(dim, 1.2, 0.8, A, lambda x, y, z: 1.0 + 0.5 * x + 0.25 * y * y, scheme)
     dof_n, form, ref = forms[name]
     if dof_n > g.inDim:
         raise Unsupported("dof_n larger than the embedding dimension")
-    field = Field(g, dof_n, MatrixType.mass)
+    field = Field(g, dof_n, MatrixType[scheme])
     try:
         got = np.asarray(BiLinearForm(form).Integrate_e(field))
     except Exception as ex:
@@ -436,6 +438,37 @@ def ob_field_consistent(et):
     return Verdict(DISCHARGED, backend="native run", sub=n)
 
 
+def ob_simu_embedded(et, placing):
+    """heat conduction written as weak forms on a mesh that is not in its canonical position (a segment mesh inclined in the plane / in space, a plate tilted out of the
+    plane) with a thickness != 1: the assembled K and C equal those of the dedicated simulation (which applies the thickness when the ELEMENTS are two-dimensional)."""
+    from EasyFEA import Models, Simulations
+    from EasyFEA.FEM import Field, BiLinearForm
+    th = 0.6
+
+    def placed():
+        mesh = patches.two_element_mesh(et)
+        co = np.asarray(mesh.coord).copy()
+        a, b_ = 0.6, 0.9
+        Rz = np.array([[np.cos(a), -np.sin(a), 0], [np.sin(a), np.cos(a), 0], [0, 0, 1]])
+        Rx = np.array([[1, 0, 0], [0, np.cos(b_), -np.sin(b_)], [0, np.sin(b_), np.cos(b_)]])
+        R = {"inplane": Rz, "space": Rz @ Rx, "canonical": np.eye(3)}[placing]
+        mesh.coord = co @ R.T + np.array([0.3, -0.2, 0.1 if placing == "space" else 0.0])
+        return mesh
+    m1, m2 = placed(), placed()
+    ref = Simulations.Thermal(m1, Models.Thermal(k=1.7, c=0.9, thickness=th))
+    ref.rho = 1.0
+    wf = Simulations.WeakForms(m2, Models.WeakForms(Field(m2.groupElem, 1), BiLinearForm(lambda u, v: 1.7 * u.grad.dot(v.grad)), computeC=BiLinearForm(lambda u, v: 0.9 * u.dot(v)), thickness=th))
+    for s_ in (ref, wf):
+        s_.Solver_Set_Parabolic_Algorithm(dt=0.1)
+    Kr, Cr = (np.asarray(M_.toarray()) for M_ in ref.Get_K_C_M_F()[:2])
+    Kw, Cw = (np.asarray(M_.toarray()) for M_ in wf.Get_K_C_M_F()[:2])
+    eK, eC = float(np.abs(Kr - Kw).max() / np.abs(Kr).max()), float(np.abs(Cr - Cw).max() / np.abs(Cr).max())
+    if eK > 1e-12 or eC > 1e-12:
+        raise Refuted(f"weak-form heat conduction on a {et} mesh placed '{placing}' (element dimension {m1.dim}, space dimension {m1.inDim}), thickness {th}: K differs from the dedicated simulation's by "
+                      f"{eK:.3e}, C by {eC:.3e} (relative)", cex=dict(elemType=et, placing=placing, thickness=th), signature=f"simu:embedded:{m1.dim}:{placing}", replay=dict(confirmed=True, err_K=eK, err_C=eC))
+    return Verdict(DISCHARGED, backend="native run", detail=f"K {eK:.1e}, C {eC:.1e}")
+
+
 def ob_simu_convection(et):
     """weak-form simulation of a NON-SYMMETRIC problem with a solution inside the finite-element space: -0.7 lap u + b.grad u = f with u linear.  Galerkin reproduces it exactly
     (the exact solution satisfies every discrete equation), whatever the mesh -- if and only if the matrix rows belong to the test functions."""
@@ -487,6 +520,12 @@ def build(tier, seed):
                 continue
             obs.append(Ob(f"C13.form.{et}.{nm}", ob_form, (et, nm), "X", (f"{FP}::BiLinearForm.Integrate_e", f"{FD}::Field.__call__", f"{FD}::Field.grad"),
                           bound="2-element patch, one coefficient set, floats", clause="Integrate_e == built-in operator with the same quadrature (1e-12)", timeout=300))
+        if et in ("TRI3", "TRI6", "QUAD4", "QUAD8", "TETRA4", "TETRA10", "HEXA8", "SEG3"):
+            for nm in ("mass", "grad", "grad_x", "elastic", "vector_mass", "convection_diffusion"):
+                if nm not in names or (dim == 1 and nm.startswith(("elastic", "vector"))):
+                    continue
+                obs.append(Ob(f"C13.form.{et}.{nm}.rigi", ob_form, (et, nm, "rigi"), "X", (f"{FP}::BiLinearForm.Integrate_e", f"{FD}::Field.copy", f"{FD}::Field.grad"),
+                              bound="2-element patch, field built on the stiffness integration scheme, floats", clause="Integrate_e on a field of the stiffness scheme == built-in operator at that scheme (1e-12)", timeout=300))
         for nm in ("scalar", "vector"):
             if dim == 1 and nm == "vector":
                 continue
@@ -502,6 +541,9 @@ def build(tier, seed):
                               ("elastic", "TETRA4", "elliptic")):
         obs.append(Ob(f"C13.simu.{physics}.{et}.{algo}", ob_simu, (physics, et, algo), "X", ("EasyFEA/Simulations/_weakforms.py::WeakForms.Construct_local_matrix_system",),
                       bound="star patch, 1-2 steps, floats", clause="WeakForms simulation == dedicated simulation (1e-10)", timeout=300))
+    for et, placing in (("SEG2", "inplane"), ("SEG3", "space"), ("SEG2", "canonical"), ("TRI3", "space"), ("QUAD4", "space"), ("TRI6", "inplane")):
+        obs.append(Ob(f"C13.simu.embedded.{et}.{placing}", ob_simu_embedded, (et, placing), "X", ("EasyFEA/Simulations/_weakforms.py::WeakForms.Construct_local_matrix_system",),
+                      bound="2-element patch rotated in the plane / in space, one thickness", clause="weak-form K and C == the dedicated heat-conduction simulation's, wherever the mesh lies", timeout=120))
     for et in (("TRI3", "QUAD8", "TETRA4") if tier == "quick" else ("TRI3", "TRI6", "QUAD4", "QUAD8", "TETRA4", "HEXA8", "PRISM6")):
         obs.append(Ob(f"C13.simu.convection.{et}", ob_simu_convection, (et,), "X", (f"{FP}::BiLinearForm.Integrate_e", "EasyFEA/Simulations/_weakforms.py::WeakForms.Construct_local_matrix_system"),
                       bound="one gmsh mesh", clause="non-symmetric weak form: a solution inside the element space is reproduced (rows belong to test functions)", timeout=600))
